@@ -152,6 +152,18 @@ def build_cases(ctx, histories, grid, d):
                 inp = {"family": "plant", "len": dist + m + 200 + 37 * bg, "seed": 3 * rnd.randrange(1 << 20) + bg, "p1": dist, "p2": m}
                 add([{"obj": [kind, rnd.choice(["w1", "pool"])], "input": inp, "depth": depth_of(rnd.choice([0, 1, 2]), kind, rnd),
                       "dstLen": -1, "spare": 0} for kind in ("fast", "hc")])
+    # (4a) every destination length across the whole block for sources with long matches (length bytes 255, 255, ...):
+    # the end of the destination falls on every token, literal, offset and extension byte
+    sweeps = [{"family": "zeros", "len": n, "seed": 0} for n in (300, 600, 5000)] + \
+             [{"family": "bytes", "len": 7 + 4000, "seed": 0, "bytes": [1, 2, 3, 4, 5, 6, 7] + [9] * 4000},
+              {"family": "periodic", "len": 3000, "seed": rnd.randrange(1 << 20), "p1": 3},
+              {"family": "runs", "len": 5000, "seed": rnd.randrange(1 << 20)},
+              {"family": "zeros", "len": 70000, "seed": 0}]
+    for inp in sweeps if not q else sweeps[:5]:
+        top = 64 if inp["len"] < 60000 else 320
+        for lo in range(0, top, 40):
+            add([{"obj": [kind, rnd.choice(["d1", "pool"])], "input": inp, "depth": 0 if kind == "fast" else rnd.choice([0, 1, 3]), "dstLen": dl, "spare": 0}
+                 for dl in range(lo, min(lo + 40, top)) for kind in ("fast", "hc")])
     # (4b) incompressible sources beyond 1 MiB with a destination of exactly the code's CompressBlockBound, and every
     # length where the code's bound is below BoundLemma!WorstCaseSize (found on a grid up to 2^30; executed up to 64 MiB)
     for n in ([1 << 20, (3 << 20) + 5] if q else [1 << 20, (3 << 20) + 5, 8 << 20, (16 << 20) + 1, 48 << 20]) + ctx.extra.get("bound_grid_short", [])[:3]:
